@@ -25,7 +25,7 @@ NOTATIONS = {
 }
 
 HEADER = pl.HEADER
-STD_IMPORT = 'From PT Require Import Lang.ParseStd.\n'
+STD_IMPORT = 'From PT Require Import Lang.ParseStd Lang.ParseStdProofs.\n'
 
 
 def header(g_import=True) -> str:
@@ -126,6 +126,13 @@ Proof. intros auto P i s P'. exact (C13_parse_wf (polish_cfg auto) obl_polish_ta
 '''
 
 STD_INSTANCES = '''
+Definition std_cfg (auto : bool) := {| tab := standard_table; auto_preds := auto; frozen := false |}.
+Theorem C13_std_never_other : forall auto O P i k, fst (parse_std_opts (std_cfg auto) O P i) <> OErr k.
+Proof. intros. apply C13_parse_std_never_other; [exact obl_standard_table_ok | left; reflexivity]. Qed.
+Theorem C13_std_wf : forall auto O P i s P', store_ok P = true ->
+  parse_std_opts (std_cfg auto) O P i = (OK s, P') ->
+  wf_items s = true /\\ closed s = true /\\ nonvacuous s = true /\\ norebind s = true /\\ arity_ok P' s = true.
+Proof. intros auto O P i s P'. exact (C13_parse_std_wf (std_cfg auto) obl_standard_table_ok O P i s P'). Qed.
 '''
 
 
@@ -442,7 +449,7 @@ def boundary(chk: Check, notn: str, ref: pl.Ref, thorough: bool):
     jobs = []
     for n in (4000, DIGIT_LIMIT, DIGIT_LIMIT + 1):
         jobs.append(dict(notation=notn, preds=[], auto=True, mode='fresh', inputs=[], rep=[atom, one, n, '']))
-    for d in (100, 200):
+    for d in (100, 200, 500):
         jobs.append(dict(notation=notn, preds=[], auto=True, mode='fresh', inputs=[], rep=['', neg, d, atom], deep=True))
     real, model = run_both([{k: v for k, v in j.items() if k != 'deep'} for j in jobs], f'Bound_{notn}_', shard=1)
     for job, rr, mm in zip(jobs, real, model):
@@ -456,8 +463,9 @@ def boundary(chk: Check, notn: str, ref: pl.Ref, thorough: bool):
 
 THEOREMS = ['C13_parse_never_other', 'C13_parse_terminates', 'C13_parse_wf', 'C13_parse_pure',
             'C13_parse_history_independent', 'C13_parse_store_grows', 'C13_parse_noauto_store',
-            'C13_parse_frozen_refuted', 'gen: C13_polish_never_other', 'gen: C13_polish_wf',
-            'gen: C13_polish_frozen_refuted']
+            'C13_parse_frozen_refuted', 'C13_parse_std_never_other', 'C13_parse_std_wf', 'C13_parse_std_pure',
+            'gen: C13_polish_never_other', 'gen: C13_polish_wf', 'gen: C13_polish_frozen_refuted',
+            'gen: C13_std_never_other', 'gen: C13_std_wf']
 
 EXPLANATION = (
     'obligations = expressibility of the regenerated parse tables in the model\'s item language (operator arities, '
